@@ -3,6 +3,7 @@ module verifharness
 go 1.23
 
 require (
+	github.com/BurntSushi/toml v0.0.0-00010101000000-000000000000
 	github.com/anishathalye/porcupine v1.3.0
 	github.com/grafana/carbon-relay-ng v0.0.0
 	github.com/metrics20/go-metrics20 v0.0.0-20180821133656-717ed3a27bf9
@@ -13,7 +14,6 @@ require (
 
 require (
 	cloud.google.com/go v0.18.1-0.20180119164648-b1067c1d21b5 // indirect
-	github.com/BurntSushi/toml v0.0.0-00010101000000-000000000000 // indirect
 	github.com/DataDog/zstd v1.3.6-0.20190409195224-796139022798 // indirect
 	github.com/Dieterbe/artisanalhistogram v0.0.0-20170619072513-f61b7225d304 // indirect
 	github.com/Dieterbe/go-metrics v0.0.0-20181015090856-87383909479d // indirect
